@@ -977,7 +977,11 @@ pub fn sweep_case(rng: &mut Rng, page: usize, op: u8, kind: usize) -> Case {
         }
         _ => {}
     }
-    let d = edge8(rng);
+    let d = match kind {
+        7 => 0xFF,
+        8 => 0x00,
+        _ => edge8(rng),
+    };
     let mut code: Vec<u8> = match page {
         0 => vec![op],
         1 => vec![0xCB, op],
@@ -1378,6 +1382,33 @@ pub fn sweep(o: &Opts, mode: Mode, rep: &mut Report, model: &mut Model) {
             batch.clear();
         }
     }
+    // 2b. every encoding followed by SCF / CCF: the Q latch observed through the architected flags
+    // (bits 5/3 of F after SCF/CCF are ((lastQ ^ F) | A) & 0x28), not only through the hook
+    {
+        let mut batch = vec![];
+        for page in 0..7 {
+            for opn in 0..256usize {
+                for follow in [0x37u8, 0x3F] {
+                    let mut c = sweep_case(&mut rng, page, opn as u8, 9);
+                    c.st.ap = c.st.ap.min(4);
+                    // where does the instruction leave PC? ask the real code, then plant SCF/CCF there
+                    let mut probe = Real::new(&c);
+                    if let Ok((post, _)) = probe.step(&c.steps[0]) {
+                        if post.ap == 0 {
+                            c.mem.insert(0, (post.w[PC], vec![follow]));
+                            c.steps.push(Step { lines: 0, bus: 0xFF });
+                        }
+                    }
+                    batch.push(c);
+                }
+                if batch.len() >= 128 {
+                    run_batch(model, rep, mode, &batch, "tstates_followed_by_scf_ccf");
+                    batch.clear();
+                }
+            }
+        }
+        run_batch(model, rep, mode, &batch, "tstates_followed_by_scf_ccf");
+    }
     // 3. interrupt entry (cycle totals 13 / 19 / 11; HALT release)
     let mut cases = vec![];
     for _ in 0..o.n(40, 2000) {
@@ -1420,8 +1451,8 @@ pub fn run(o: &Opts) -> Report {
     rep.rule = "all 1792 opcode encodings (256 x {none,CB,ED,DD,FD,DDCB,FDCB}) x 9 forced start states (F=00, F=FF, \
 B=1, B=2, BC=1, BC=2, A=(HL)=(IX+d)=(IY+d), all registers 0, all registers FF) + seeded random states with \
 boundary-biased registers/operands (some with the prefix pending from a previous call), one Z80::emulate each; then \
-random instruction sequences (2-12 instructions of all pages, state carried on both sides) and interrupt-entry \
-steps. Compared per step: every register incl. alternates, I, R, IFF1/2, IM, MEMPTR, Q, lastQ, halted, \
+random instruction sequences (2-12 instructions of all pages, state carried on both sides), every encoding \
+followed by SCF and by CCF (Q latch seen through F), and interrupt-entry steps. Compared per step: every register incl. alternates, I, R, IFF1/2, IM, MEMPTR, Q, lastQ, halted, \
 skip_interrupt, pending prefix, and the ordered memory/port reads and writes with addresses and data. \
 distinct/non-trivial = distinct (encoding or interrupt kind, T-states consumed) pairs observed on the real code \
 in agreeing steps"
